@@ -60,8 +60,84 @@ VDec(ev) ==
      ELSE IF r.ok /\ HexToBytes(ev.out.enc) # b THEN PBad("C05: accepted string does not re-encode to itself", ev.b)
      ELSE PGood
 
+(* ---- C13: the element API ------------------------------------------------- *)
+(* elements are named by their discrete logarithm k: e_k = k.Base               *)
+Idx(g, k) == GMul(g, GBase(g), NLit(k))
+ElemTable(g) == [k \in 1..NToInt(GOrder(g)) |-> Idx(g, k - 1)]   \* tab[k+1] = e_k
+ClsOK(g, e, cls) == IF IsEd(g) THEN cls = (IF e = EdId THEN "_ZeroElement" ELSE "Element")
+                    ELSE cls = "_Element"
+(* a result record of the harness: enc, cls, negok, neg (= result.scalarmult(-1)) *)
+ResultOK(g, e, r) ==
+  /\ HexToBytes(r.enc) = GEnc(g, e)
+  /\ ClsOK(g, e, r.cls)
+  /\ r.negok = 1 /\ HexToBytes(r.neg) = GEnc(g, GNeg(g, e))
+ShowElem(g, e) == BytesToHex(GEnc(g, e))
+FirstBad(S) == CHOOSE k \in S : \A k2 \in S : k <= k2
+
+VAddRow(ev) ==
+  LET g   == GroupTable[ev.grp]
+      tab == ElemTable(g)
+      n   == Len(tab)
+      bad == {j \in 1..n : ~ResultOK(g, GAdd(g, tab[ev.a + 1], tab[j]), ev.outs[j])}
+  IN IF Len(ev.outs) # n THEN PBad("harness: row size", "")
+     ELSE IF bad = {} THEN PGood
+     ELSE LET j == FirstBad(bad) e == GAdd(g, tab[ev.a + 1], tab[j])
+          IN PBad("C13: add: e_" \o ToString(ev.a) \o " + e_" \o ToString(j - 1) \o " (operands via " \o ev.how \o ")",
+                  ToJson([enc |-> ShowElem(g, e), neg |-> ShowElem(g, GNeg(g, e)),
+                          cls |-> IF IsEd(g) THEN (IF e = EdId THEN "_ZeroElement" ELSE "Element") ELSE "_Element"]))
+
+VMulRow(ev) ==
+  LET g   == GroupTable[ev.grp]
+      q   == NToInt(GOrder(g))
+      e   == Idx(g, ev.a)
+      exp(j) == GMul(g, e, NLit((ev.lo + j - 1) % q))
+      bad == {j \in 1..Len(ev.outs) : ~ResultOK(g, exp(j), ev.outs[j])}
+  IN IF Len(ev.outs) # ev.hi - ev.lo + 1 THEN PBad("harness: row size", "")
+     ELSE IF bad = {} THEN PGood
+     ELSE LET j == FirstBad(bad)
+          IN PBad("C13: scalarmult: e_" \o ToString(ev.a) \o " * " \o ToString(ev.lo + j - 1) \o " (operand via " \o ev.how \o ")",
+                  ToJson([enc |-> ShowElem(g, exp(j)), neg |-> ShowElem(g, GNeg(g, exp(j)))]))
+
+VEqRow(ev) ==
+  LET n   == Len(ev.eq)
+      bad == {j \in 1..n : (ev.eq[j] = 1) # (j - 1 = ev.a) \/ (ev.ne[j] = 1) # (j - 1 # ev.a)}
+  IN IF bad = {} THEN PGood
+     ELSE PBad("C13: == / != is not value equality: e_" \o ToString(ev.a) \o " vs e_" \o ToString(FirstBad(bad) - 1), "")
+
+VNegRow(ev) ==
+  LET g   == GroupTable[ev.grp]
+      tab == ElemTable(g)
+      n   == Len(tab)
+      badn == {j \in 1..n : ~ResultOK(g, GNeg(g, tab[j]), ev.negs[j])}
+      bads == {j \in 1..n : ~ResultOK(g, GAdd(g, tab[ev.a + 1], GNeg(g, tab[j])), ev.subs[j])}
+  IN IF badn # {} THEN PBad("C13: negate: -e_" \o ToString(FirstBad(badn) - 1), ShowElem(g, GNeg(g, tab[FirstBad(badn)])))
+     ELSE IF bads # {} THEN PBad("C13: subtract: e_" \o ToString(ev.a) \o " - e_" \o ToString(FirstBad(bads) - 1), "")
+     ELSE PGood
+
+(* full size: operands named by scalars (hex), scalars as [neg, mag]            *)
+ScalarOf(g, s) == LET qq == GOrder(g)  mg == NMod(PHNum(s.mag), qq)
+                  IN IF s.neg = 1 THEN NMod(NSub(qq, mg), qq) ELSE mg
+VOp(ev) ==
+  LET g  == GroupTable[ev.grp]
+      ea == GMul(g, GBase(g), PHNum(ev.ka))
+      e  == IF ev.fn = "add" THEN GAdd(g, ea, GMul(g, GBase(g), PHNum(ev.kb)))
+            ELSE IF ev.fn = "sub" THEN GAdd(g, ea, GNeg(g, GMul(g, GBase(g), PHNum(ev.kb))))
+            ELSE IF ev.fn = "neg" THEN GNeg(g, ea)
+            ELSE GMul(g, ea, ScalarOf(g, ev.n))
+  IN IF ev.fn = "eq"
+     THEN IF (ev.out.eq = 1) = (NMod(PHNum(ev.ka), GOrder(g)) = NMod(PHNum(ev.kb), GOrder(g))) /\ ev.out.ne = 1 - ev.out.eq
+          THEN PGood ELSE PBad("C13: == / != is not value equality", "")
+     ELSE IF ResultOK(g, e, ev.out) THEN PGood
+     ELSE PBad("C13: " \o ev.fn \o " (operands via " \o ev.how \o ")",
+               ToJson([enc |-> ShowElem(g, e), neg |-> ShowElem(g, GNeg(g, e))]))
+
 PureVerdict(ev) ==
   CASE ev.op = "g_dec_table" -> VDecTable(ev)
     [] ev.op = "g_dec"       -> VDec(ev)
+    [] ev.op = "g_add_row"   -> VAddRow(ev)
+    [] ev.op = "g_mul_row"   -> VMulRow(ev)
+    [] ev.op = "g_eq_row"    -> VEqRow(ev)
+    [] ev.op = "g_neg_row"   -> VNegRow(ev)
+    [] ev.op = "g_op"        -> VOp(ev)
     [] OTHER                 -> PBad("harness: unknown event " \o ev.op, "")
 =============================================================================
